@@ -214,6 +214,51 @@ def _fresh_solver(c):
     c.divisors = []
 
 
+def is_repo_exception(e):
+    """True iff the exception passed through a frame of the repository under verification (so it was
+    raised by repository code, possibly inside a shim it called) and is not an engine signal
+    (Unsupported / PathAbort / Undecided keep their own meaning: undecided, infeasible path)."""
+    import os
+
+    import vc
+    from vc.core import PathAbort, Undecided, Unsupported
+
+    if isinstance(e, (Unsupported, PathAbort, Undecided)):
+        return False
+    root = os.path.realpath(vc.REPO_SRC) + os.sep
+    tb = e.__traceback__
+    while tb is not None:
+        if os.path.realpath(tb.tb_frame.f_code.co_filename).startswith(root):
+            return True
+        tb = tb.tb_next
+    return False
+
+
+def note_exception(inp, e):
+    import traceback
+
+    where = ""
+    for fs in reversed(traceback.extract_tb(e.__traceback__)):
+        if "/fdtdx/" in fs.filename:
+            where = f" at {fs.filename.split('/fdtdx/', 1)[1]}:{fs.lineno} in {fs.name}"
+            break
+    inp.note("exception", f"{type(e).__name__}: {e}{where}")
+
+
+def guarded(name, fn, *a, **kw):
+    """call repository code on an in-domain input: -> (True, result), or (False, None) after
+    recording the refuted obligation `name` if the repository raised"""
+    c = ctx()
+    try:
+        return True, fn(*a, **kw)
+    except Exception as e:  # noqa: BLE001
+        if not is_repo_exception(e):
+            raise
+        note_exception(c.inputs, e)
+        c.prove(name, False)
+        return False, None
+
+
 def grouped(configs, chunk):
     """Every configuration is a few hundred milliseconds of work but a worker process costs seconds
     to start (jax / fdtdx imports): configurations of one kind are run back to back inside one task,
@@ -242,6 +287,15 @@ def grouped(configs, chunk):
                     c.prove = pr
                     try:
                         configs[label](c, inp)
+                    except Exception as e:  # noqa: BLE001
+                        # every configuration is an in-domain use of the detectors (valid placement,
+                        # update on fields of the box shape, post-processing of a well-shaped state):
+                        # an exception raised by REPOSITORY code there is a refuted obligation
+                        # (replayed on the real code), never a crash of the check
+                        if not is_repo_exception(e):
+                            raise
+                        note_exception(inp, e)
+                        c.prove("no_exception_on_valid_input", False)
                     finally:
                         c.prove = orig
 
